@@ -1060,8 +1060,30 @@ func (rn *runner) encValue(v any, fix bool, payload []byte) {
 
 // decCase: bytes -> decoded -> serialized again.
 func (rn *runner) decCase(lay string, id int, bs []byte, how string, mutatedLen bool) {
+	rn.decCaseR(lay, id, bs, how, mutatedLen, nil)
+}
+
+// reusable is one long-lived layer / path object that is decoded into repeatedly.
+type reusable struct {
+	lay    string
+	id     int
+	decode func(bs []byte) (view any, rest []byte, err error) // into the captured object
+	reser  func(rest []byte) ([]byte, error)                  // serialize the captured object
+}
+
+// decCaseR: like decCase; with ru != nil the bytes are decoded into ru's reused object (whose
+// state stems from the previous steps of the sequence) and re-serialized from that object, and
+// compared with the (stateless) model applied to these bytes alone.
+func (rn *runner) decCaseR(lay string, id int, bs []byte, how string, mutatedLen bool, ru *reusable) {
 	run := rn.run
 	if !run.Want() {
+		if ru != nil { // keep the object's history identical under -only
+			vgen.Recover(func() {
+				if _, rest, err := ru.decode(append([]byte(nil), bs...)); err == nil {
+					_, _ = ru.reser(append([]byte(nil), rest...))
+				}
+			})
+		}
 		run.Skip()
 		return
 	}
@@ -1079,7 +1101,11 @@ func (rn *runner) decCase(lay string, id int, bs []byte, how string, mutatedLen 
 	var err, rerr error
 	slack := false
 	pan, msg := vgen.Recover(func() {
-		v, rest, err = dec(lay, id, bs)
+		if ru != nil {
+			v, rest, err = ru.decode(append([]byte(nil), bs...))
+		} else {
+			v, rest, err = dec(lay, id, bs)
+		}
 		if err == nil {
 			if s, ok := v.(*slayers.SCION); ok {
 				slack = int(s.HdrLen)*4 > slayers.CmnHdrLen+s.AddrHdrLen()+s.Path.Len()
@@ -1104,7 +1130,13 @@ func (rn *runner) decCase(lay string, id int, bs []byte, how string, mutatedLen 
 	if err == nil {
 		implT = vgen.Opt(pairT(v, rest), true) // before re-serialization (which may touch the struct)
 		restCopy := append([]byte(nil), rest...)
-		pan, msg = vgen.Recover(func() { rs, rerr = ser(v, false, restCopy) })
+		pan, msg = vgen.Recover(func() {
+			if ru != nil {
+				rs, rerr = ru.reser(restCopy)
+			} else {
+				rs, rerr = ser(v, false, restCopy)
+			}
+		})
 		if pan {
 			run.Violate(run.Add("dec-"+lay, vgen.App("Hdr.CDec", lt, bytesT(bs), implT, "None"),
 				fmt.Sprintf("%s%x", lay, bs), false, desc), "panic when serializing a decoded value: "+msg, desc)
@@ -1302,5 +1334,8 @@ func main() {
 			}
 		}
 	}
+	// 5. decode sequences on reused objects; 6. ExtLen boundary values (seq.go)
+	rn.sequences(rng)
+	rn.extBoundaries(rng)
 	run.Finish()
 }
